@@ -166,20 +166,40 @@ func wellFormed(p *put, c *c06Case, in []byte, ast any, err error, r *vstat.Run)
 	return outcome{}
 }
 
-// unclosedDepth is the maximum number of simultaneously open, never closed parentheses.
-func unclosedDepth(in []byte) int {
-	depth := 0
+// parenDepth is the maximum parenthesis nesting reached anywhere in the input.
+func parenDepth(in []byte) int {
+	depth, max := 0, 0
 	for _, b := range in {
 		switch b {
 		case '(':
 			depth++
+			if depth > max {
+				max = depth
+			}
 		case ')':
 			if depth > 0 {
 				depth--
 			}
 		}
 	}
-	return depth
+	return max
+}
+
+// f19Excluded: inputs of the sql fixture that nest parentheses deeper than 10 and are not the pristine
+// nesting sample (which parses in linear time). A parse that fails at that depth takes time exponential in
+// the depth (known finding F19), so these inputs are excluded by construction.
+func f19Excluded(fixture string, in []byte) bool {
+	if fixture != "sql" {
+		return false
+	}
+	d := parenDepth(in)
+	if d <= 10 {
+		return false
+	}
+	if f := fixtures.Get("sql"); f != nil && f.Nesting != nil && f.Nesting(d) == string(in) {
+		return false
+	}
+	return true
 }
 
 const sigExpo = "F19-exponential-backtracking-sql-unclosed-parens"
@@ -209,9 +229,11 @@ func checkC06(p *put, c *c06Case, r *vstat.Run) outcome {
 	if c.Shape == "expo" {
 		return checkC06Expo(p, c)
 	}
-	if c.Fixture == "sql" && unclosedDepth(in) > 10 && r != nil && r.Known(sigExpo) {
+	if f19Excluded(c.Fixture, in) && (r == nil || r.Known(sigExpo)) {
 		// known finding F19, excluded by construction (each occurrence would cost the 20 s watchdog)
-		r.Excluded(sigExpo)
+		if r != nil {
+			r.Excluded(sigExpo)
+		}
 		return outcome{}
 	}
 	var ast any
